@@ -1,8 +1,8 @@
-from translators import t3_legend
+from translators import t3_legend, t_lsp_pico
 
 ID = "C23"
 TITLE = "Language-server positions address the right text"
-TRANSLATORS = [t3_legend.translate]   # drv_lsp links Gen/Legend.lean
+TRANSLATORS = [t3_legend.translate, t_lsp_pico.translate]   # drv_lsp links Gen/Legend.lean
 LEAN_MODULES = ["IsoVerif.Props.C23"]
 THEOREMS = ["IsoVerif.Props.C23.C23_spec", "IsoVerif.Props.C23.C23_loc", "IsoVerif.Props.C23.C23_delta",
             "IsoVerif.Props.C23.C23_edit", "IsoVerif.Props.C23.C23_range", "IsoVerif.Props.C23.C23_tokens",
